@@ -95,11 +95,31 @@ def cmd_run(a):
         finally:
             sh(["git", "-C", "/repo", "checkout", "--", "."])
         caught = any(v["exit"] == 1 for v in res.values())
-        meta.setdefault("checks", {})[a.tier] = res
+        meta.setdefault("checks", {}).setdefault(a.tier, {}).update(res)
         meta["caught"] = caught or meta.get("caught", False)
         json.dump(meta, open(os.path.join(d, "meta.json"), "w"), indent=1)
         print("%-24s %s %s" % (sid, "CAUGHT" if caught else "MISSED", json.dumps(res)))
-    sh(["git", "-C", ROOT, "checkout", "--", "evidence"])
+
+
+def cmd_report(a):
+    rows = []
+    for sid in sorted(os.listdir(SEEDED)):
+        f = os.path.join(SEEDED, sid, "meta.json")
+        if not os.path.exists(f):
+            continue
+        m = json.load(open(f))
+        res = m.get("checks", {}).get("quick", {})
+        caught = sorted(p for p, v in res.items() if v.get("exit") == 1)
+        quiet = sorted(p for p, v in res.items() if v.get("exit") == 0)
+        keys = "; ".join("%s: %s" % (p, ", ".join(res[p]["keys"][:2])) for p in caught)
+        rows.append("| %s | %s | %s | %s | %s |" % (sid, m.get("property"), ", ".join(caught) or "-", ", ".join(quiet) or "-", keys.replace("|", "/")[:300]))
+    out = ["# Changes seeded by independent sub-agents vs the checks (quick tier)", "",
+           "Each change was written by a fresh sub-agent that saw only the property text and a scratch worktree of /repo, was confirmed there (its demo fails with",
+           "the change and passes without; the repository's 404 tests still pass), and is kept as `seeded/<id>/patch.diff` + demo + `meta.json`.",
+           "`tools/seeded.py run <id> --props ...` applies it to /repo, runs the named checks and undoes it (`git checkout -- .`).", "",
+           "| seeded change | property | caught by | quiet (other checks run against it) | first keys |", "|---|---|---|---|---|"] + rows
+    open(os.path.join(SEEDED, "RESULTS.md"), "w").write("\n".join(out) + "\n")
+    print(len(rows), "rows")
 
 
 ap = argparse.ArgumentParser()
@@ -113,5 +133,6 @@ r = sub.add_parser("run")
 r.add_argument("id")
 r.add_argument("--tier", default="quick")
 r.add_argument("--props")
+sub.add_parser("report")
 a = ap.parse_args()
-sys.exit(cmd_import(a) if a.cmd == "import" else cmd_run(a))
+sys.exit(cmd_import(a) if a.cmd == "import" else (cmd_report(a) if a.cmd == "report" else cmd_run(a)))
